@@ -40,9 +40,47 @@ pub fn gen_sort_on_ref(seed: u64, k: u64) -> Value {
     v
 }
 
+/// Two stores: a sorted one whose order reverses the insertion order (every entry moves), and a small one whose entries
+/// refer to entries of the first (its first, its last, others): references across stores resolve to final positions too.
+pub fn gen_cross_store(seed: u64, tier: Tier, k: u64) -> Value {
+    let mut rng = Rng::keyed(seed, "C15-cross", k);
+    let n_a = *rng.pick(&[2usize, 257, 300, 2_000, tier.pick(9_000, 70_001)]);
+    let a = StoreDef {
+        n: n_a,
+        common: vec![PDef { name: "key".into(), kind: PKind::UInt, col: Col::RevSeq }, PDef { name: "id".into(), kind: PKind::UInt, col: Col::Seq }],
+        variants: vec![],
+        sort: Some(vec!["key".into()]),
+        unique_keys: true,
+    };
+    let n_b = rng.range(1, 6) as usize;
+    let b = StoreDef {
+        n: n_b,
+        common: vec![PDef { name: "id".into(), kind: PKind::UInt, col: Col::Seq }, PDef { name: "to_a".into(), kind: PKind::RefTo, col: Col::RefOther(0) }],
+        variants: vec![],
+        sort: None,
+        unique_keys: false,
+    };
+    // the referencing store is added after (usual) or before the store it refers to
+    let (stores, ia, ib) = if rng.chance(2, 3) { (vec![a, b], 0usize, 1usize) } else { (vec![b, a], 1, 0) };
+    let mut stores = stores;
+    for p in stores[ib].common.iter_mut() {
+        if let Col::RefOther(t) = &mut p.col {
+            *t = ia;
+        }
+    }
+    let indexes = vec![IndexDef { name: "a".into(), store: ia, offset: 0, count: n_a as u32 }, IndexDef { name: "b".into(), store: ib, offset: 0, count: n_b as u32 }];
+    let case = DirCase { seed: rng.next(), vstores: vec![], stores, indexes, defer: 0, free: 0 };
+    let mut v = case.to_json();
+    v["via"] = json!(if rng.chance(1, 2) { "file" } else { "mem" });
+    v
+}
+
 pub fn gen(seed: u64, tier: Tier, k: u64) -> Value {
     if k % 12 == 9 {
         return gen_sort_on_ref(seed, k);
+    }
+    if k % 12 == 5 {
+        return gen_cross_store(seed, tier, k);
     }
     let mut rng = Rng::keyed(seed, "C15", k);
     // sizes: reference-column width boundaries and sizes where rayon really splits the work
@@ -197,6 +235,9 @@ pub fn run(desc: &Value, ctx: &Ctx) -> CaseOut {
     let case = DirCase::from_json(desc);
     // non-trivial: at least one reference column and >= 2 entries
     let has_ref = case.stores.iter().any(|s| s.common.iter().any(|p| matches!(p.kind, PKind::RefTo | PKind::RefToS)));
+    if case.stores.iter().any(|s| s.common.iter().any(|p| matches!(p.col, Col::RefOther(_)))) {
+        out.obs.inc("cases_with_references_across_stores");
+    }
     out.nontrivial = has_ref && case.stores.iter().any(|s| s.n >= 2);
     for s in &case.stores {
         for p in &s.common {
